@@ -2,6 +2,8 @@ package c19
 
 import (
 	"strings"
+	"unicode"
+	"unicode/utf8"
 
 	"pgregory.net/rapid"
 
@@ -30,8 +32,25 @@ var deepToks = []string{">", "> ", "- ", "* ", "+ ", "1. ", "[", "![", "`", "*",
 func genBytes(t *rapid.T) Case {
 	c := Case{Kind: "bytes", Opts: genOpts(t)}
 	c.Entry = rapid.SampledFrom([]string{"bytes", "bytes", "string", "file"}).Draw(t, "entry")
-	c.Cls = rapid.SampledFrom([]string{"random", "utf8", "soup", "soup", "soup", "deep", "table", "dollar", "latex"}).Draw(t, "cls")
+	c.Cls = rapid.SampledFrom([]string{"random", "utf8", "soup", "soup", "soup", "deep", "table", "dollar", "latex", "splice", "splice"}).Draw(t, "cls")
 	switch c.Cls {
+	case "splice":
+		// a well-formed document using every construct, cut and re-assembled: slices of it in drawn order, some
+		// repeated, with soup tokens in between (what byte-level mutation of a seed file reaches, as plain data)
+		base := spliceBase
+		n := rapid.IntRange(2, kit.Scale(14, 40)).Draw(t, "n")
+		for i := 0; i < n; i++ {
+			if rapid.IntRange(0, 3).Draw(t, "what") == 0 {
+				c.Toks = append(c.Toks, Tok{S: rapid.SampledFrom(soup).Draw(t, "tok"), N: rapid.IntRange(1, 3).Draw(t, "rep")})
+				continue
+			}
+			from := rapid.IntRange(0, len(base)-1).Draw(t, "from")
+			ln := rapid.IntRange(1, 120).Draw(t, "len")
+			if from+ln > len(base) {
+				ln = len(base) - from
+			}
+			c.Toks = append(c.Toks, Tok{B: []byte(base[from : from+ln]), N: 1}) // B: a slice may cut a UTF-8 sequence
+		}
 	case "random":
 		c.Toks = []Tok{{B: rapid.SliceOfN(rapid.Byte(), 0, 400).Draw(t, "raw"), N: 1}}
 	case "utf8":
@@ -48,8 +67,8 @@ func genBytes(t *rapid.T) Case {
 		}
 		c.Toks = append(c.Toks, Tok{S: rapid.SampledFrom([]string{"x", "x\n", "", "\n\nend"}).Draw(t, "tail"), N: 1})
 	case "table":
-		cols := rapid.IntRange(1, kit.Scale(60, 300)).Draw(t, "cols")
-		rows := rapid.IntRange(0, kit.Scale(60, 400)).Draw(t, "rows")
+		cols := rapid.IntRange(1, kit.Scale(40, 300)).Draw(t, "cols")
+		rows := rapid.IntRange(0, kit.Scale(40, 400)).Draw(t, "rows")
 		cell := rapid.SampledFrom([]string{"| a ", "| **b** ", "|  ", "| `c` ", "| \\| ", "| $x$ ", "|"}).Draw(t, "cell")
 		c.Toks = []Tok{{S: "| h ", N: cols}, {S: "|\n", N: 1}, {S: rapid.SampledFrom([]string{"|---", "|:-:", "|--:", "|:-"}).Draw(t, "dl"), N: cols}, {S: "|\n", N: 1}}
 		// rows may be shorter or longer than the header
@@ -76,6 +95,8 @@ func genBytes(t *rapid.T) Case {
 	return c
 }
 
+var spliceBase = Case{Doc: showcase()}.Markdown() + "\n[^n]: note *text*\n\nref[^n] ![alt](p.png \"t\") <span>raw</span> <http://a.test> a\\\nb  \nc &copy; \\* www.x.test\n\n1. one\n   - [x] two\n     > three\n     > ```\n     > four\n\n<div>\nblock\n</div>\n\n$$\n\\frac{a}{b}\n$$\n$$\nc\n$$\n"
+
 // ---------------------------------------------------------------------------------------------
 // fidelity inputs
 
@@ -89,6 +110,20 @@ type g struct {
 	t    *rapid.T
 	o    Opts
 	hard map[string]bool
+	n    int // words drawn so far
+}
+
+// tag makes every word of a document distinct (two letters from a running counter appended to words ending in a
+// letter or digit): with repeated words ("alpha alpha" is what rapid draws most) a lost or invented stretch of
+// text could be placed in several blocks, and the attribution of a text difference to a block would be a guess.
+func (g *g) tag(w string) string {
+	r, _ := utf8.DecodeLastRuneInString(w)
+	if !unicode.IsLetter(r) && !unicode.IsDigit(r) {
+		return w
+	}
+	n := g.n % 676
+	g.n++
+	return w + string(rune('a'+n/26)) + string(rune('a'+n%26))
 }
 
 func (g *g) pct(name string, p int) bool { return rapid.IntRange(1, 100).Draw(g.t, name) <= p }
@@ -97,7 +132,7 @@ func (g *g) text(max int) Inl {
 	n := rapid.IntRange(1, max).Draw(g.t, "nwords")
 	ws := make([]string, n)
 	for i := range ws {
-		ws[i] = rapid.SampledFrom(words).Draw(g.t, "word")
+		ws[i] = g.tag(rapid.SampledFrom(words).Draw(g.t, "word"))
 	}
 	return Inl{K: "t", S: strings.Join(ws, " ")}
 }
@@ -186,10 +221,10 @@ func (g *g) inlines(ctx string, max int) []Inl {
 				kinds = append(kinds, "sb", "sb")
 			}
 		}
+		if g.o.Math && (ctx == "p" || i > 0) { // formulas in every context; a container's text starts with a word
+			kinds = append(kinds, "math")
+		}
 		if ctx == "p" {
-			if g.o.Math {
-				kinds = append(kinds, "math")
-			}
 			if g.hard["escape"] {
 				kinds = append(kinds, "esc", "ent", "esc", "ent")
 			}
@@ -201,6 +236,9 @@ func (g *g) inlines(ctx string, max int) []Inl {
 			}
 		}
 		k := rapid.SampledFrom(kinds).Draw(g.t, "inlkind")
+		if k == "math" && len(out) > 0 && out[len(out)-1].K == "math" {
+			k = "t" // "$a$ $b$": the inline math parser pairs the 2nd and 3rd dollar as well - ambiguous, keep text between formulas
+		}
 		switch k {
 		case "t":
 			out = append(out, g.text(4))
@@ -318,6 +356,10 @@ func (g *g) list(depth int) Blk {
 			it.Task = rapid.IntRange(0, 2).Draw(g.t, "task")
 		}
 		it.B = []Blk{{K: "p", I: g.inlines("plain", 2)}}
+		if f := it.B[0].I[0]; f.K == "link" && len(f.C) == 1 && (f.C[0].S == "x" || f.C[0].S == "X") {
+			// "- [x](url)" reads as a checked task box followed by "(url)" under GFM
+			it.B[0].I = append([]Inl{g.text(1)}, it.B[0].I...)
+		}
 		if g.hard["blocks"] && depth < 2 && g.pct("itemblocks", 60) {
 			m := rapid.IntRange(1, 2).Draw(g.t, "nsub")
 			for j := 0; j < m; j++ {
@@ -431,11 +473,28 @@ func genAST(t *rapid.T) Case {
 	for i := 0; i < n; i++ {
 		c.Doc = append(c.Doc, gg.block(0, true))
 	}
+	separateIndented(c.Doc)
 	return c
 }
 
+// separateIndented: two indented code blocks in a row would read as one block with a blank line inside; the
+// second one becomes a fenced block (same lines).
+func separateIndented(bs []Blk) {
+	for i := range bs {
+		if i > 0 && bs[i].K == "code" && !bs[i].Fenced && bs[i-1].K == "code" && !bs[i-1].Fenced {
+			bs[i].Fenced = true
+		}
+		separateIndented(bs[i].B)
+		for j := range bs[i].Items {
+			separateIndented(bs[i].Items[j].B)
+		}
+	}
+}
+
+var kindMix = []string{"ast", "bytes", "ast", "ast", "bytes", "ast", "ast", "bytes", "ast", "ast"}
+
 func genCase(t *rapid.T) Case {
-	if rapid.IntRange(0, 9).Draw(t, "kind") < 3 {
+	if rapid.SampledFrom(kindMix).Draw(t, "kind") == "bytes" {
 		return genBytes(t)
 	}
 	return genAST(t)
